@@ -39,7 +39,7 @@ def plan(tier):
 
 def floors(tier):
     f = {"nontrivial": 60, "counter:steps": 800, "counter:evaluator_observations": 8000, "counter:pairs_distinct_in_case": 500,
-         "counter:ref_crosschecks": 800}
+         "counter:ref_crosschecks": 800, "counter:others_evaluated_first": 200}
     for k in KINDS:
         f["counter:mut_" + k] = 30
     for k in KINDS:
@@ -129,6 +129,8 @@ def run_case(rng, idx, tier, lane, ctx):
     x = [round(rng.uniform(1, 5), 4) for _ in S]
     t = round(rng.uniform(0, 3), 4)
     compiled = set()
+    bystander = None
+    counters["others_evaluated_first"] = 0
     pairs = set()
     nontriv = False
     maxlen = 10 if tier == "quick" else 20
@@ -197,9 +199,21 @@ def run_case(rng, idx, tier, lane, ctx):
         for e in compiled:
             pairs.add((kind, e))
         with contextlib.redirect_stdout(io.StringIO()):
-            a = evalall(m, x, t)
+            # other model objects live in the same process: a long-lived bystander and the fresh reference.  In half of the steps
+            # they are evaluated BEFORE the live model (recompile flags must be per model, not shared state)
             fm = fresh(defn)
-            b = evalall(fm, x, t)
+            order = rng.random()
+            if order < 0.5:
+                if bystander is not None:
+                    evalall(bystander, x, t)
+                b = evalall(fm, x, t)
+                a = evalall(m, x, t)
+                counters["others_evaluated_first"] += 1
+            else:
+                a = evalall(m, x, t)
+                b = evalall(fm, x, t)
+            if bystander is None or rng.random() < 0.3:
+                bystander = fm
         compiled = set(EV)
         spec = op_to_spec(defn)
         ref = RefModel(spec)
